@@ -79,6 +79,14 @@ pub enum SamplingDecision {
 impl Context {
     /// Constructs a new context with the trace ID and sampling decision inherited from the parent.
     pub(crate) fn new_child(&self) -> Self {
+        #[cfg(tarpc_verif)]
+        if let Some(span_id) = crate::verif_hooks::span_id() {
+            return Self {
+                trace_id: self.trace_id,
+                span_id: SpanId(span_id),
+                sampling_decision: self.sampling_decision,
+            };
+        }
         Self {
             trace_id: self.trace_id,
             span_id: SpanId::random(&mut rand::thread_rng()),
